@@ -44,6 +44,18 @@ add('C01',
     'Lean 4 proof (verified mini-compiler, simulation between unification environments and the column map) + structural correspondence with the emitted SQL + reference-evaluator oracle on SQLite',
     'DESIGN.md section 5 C01')
 
+add('C05',
+    'Lean 4 theorems on constraint solving over the scalar part of the type lattice (Any, Singular, Sequential, Num, Str, Bool, Time, clash; constraints "x has type t" and "x unified with y", applied by a schedule in any order, with any repetition): if some clash-free assignment satisfies the constraints, no schedule ever produces a clash (accepted whatever the order); two schedules that reached a fixed point inferred the same type for every variable, the greatest solution (exactly that signature, whatever the order); if no clash-free assignment satisfies them, every schedule at a fixed point reports a clash; a clash is never lost; the scalar meet is associative/commutative/idempotent and is the restriction of the structured meet of C16 (meet_toTy); the list solver the driver runs equals the functional solver of the theorems (toAsg_run). Lists, records and whole-program inference are not theorems (partial). Tie: random constraint systems rendered as rule bodies (x == literal, x == y) in 3 orders: verdict and signature of the real engine vs the fixed point of the model. Oracle on the real engine: generated typed programs are accepted with exactly the intended signatures; 9 single-point type corruptions x 3 orders of rules/conjuncts are rejected with TypeErrorCaughtException; values returned by SQLite inhabit the column types.',
+    'Trusted: Lean kernel + standard axioms; partial: scalar lattice only, structured types via C16 correspondence and oracle; generator of intended types; SQLite. Known finding: colN access to positional predicate rejected by the type checker.',
+    'Lean 4 proof (greatest-solution argument over a finite-height lattice) + differential correspondence of the solver + corruption oracle on the real type checker',
+    'DESIGN.md section 5 C05')
+
+add('C09',
+    'Lean 4 theorems over Generated/Templates.lean, which a translator (tools/gen_templates.py) regenerates from the live dialect tables of /repo on every run: every template a built-in function call or infix operator can be formatted with (all 8 dialects, bulk functions included) is well-formed (one %s and no other conversion, or well-formed positional/named holes; brackets and quotes of the template balance; no hole inside a string literal) - checked by the kernel over the whole table (decide +kernel); and for every well-formed template and all argument texts whose brackets and string literals balance, QL.Function returns balanced text with every placeholder replaced or fails only for a missing positional argument (the arity diagnostic), %s templates never fail, and QL.Infix always returns balanced parenthesised text - by induction over the template, hence for expressions of any nesting depth. Alias scoping, WITH order, statement assembly and absence of internal errors elsewhere are not modelled (partial): they are decided by an independent static checker (comment- and dialect-aware lexing, bracket balance, alias scoping, WITH order, placeholder leaks) applied to the SQL the real compiler emits for generated programs on all eight dialects and for every non-bulk built-in called with 1-3 literal arguments; on SQLite the statements are also executed (calibration). Tie of the model: QL.Function / QL.Infix on every live template x argument texts vs the Lean driver.',
+    'Trusted: Lean kernel + standard axioms; the translator (reads ql.built_in_functions / built_in_infix_operators of each dialect); partial as stated; the static checker; no engine but SQLite exists offline. Two defects repaired (Databricks Subscript arity, IndexError for too few arguments of a dialect rendering).',
+    'Lean 4 proof over a model regenerated from the source (translator) + kernel-checked table + differential correspondence of the formatter + static SQL checker oracle',
+    'DESIGN.md section 5 C09')
+
 SEM_TIE = ('Tie and oracle: type-directed generated programs (AST for the Lean reference evaluator Sem.denote, text for the real pipeline) run on every check; rows and column names from the `logica.py run` SQLite path are compared as multisets with Sem.denote; ')
 
 add('C02',
